@@ -135,6 +135,14 @@ class TriggerHandler:
         :param arg: the args
         :return: None to ignore other calls, or our self to continue
         """
+        try:
+            return self.__trace_call(frame, event, arg)
+        except BaseException:
+            # we must never raise into the application code, python would also remove the trace function
+            logging.exception("Cannot process event %s", event)
+            return self.trace_call
+
+    def __trace_call(self, frame: FrameType, event: str, arg):
         event, file, line, function = self.location_from_event(event, frame)
         trigger_context = TriggerContext(self._config, self._push_service, frame, event, arg)
 
